@@ -309,6 +309,13 @@ def gen_html(r, depth=0):
         n = r.choice(['br', 'hr', 'img', 'input'])
         a = {'img': ' src="%s" alt="%s"' % (r.choice(['a.png', 'x y.png', 'é.png', 'a.png?x=1&amp;y=2']), c04.src_escape(r.choice(HTEXT), True)), 'input': ' type="checkbox"%s' % r.choice(['', ' checked="checked"', ' disabled="disabled"'])}.get(n, '')
         return '<%s%s/>' % (n, a)
+    if k < 0.36:
+        # form controls: boolean attributes where they belong, next to ordinary attributes whose value equals their name
+        opts = ''.join('<option value="%s"%s>%s</option>' % (r.choice(['a', 'value', 'VALUE', 'selected', '']), r.choice(['', ' selected="selected"', ' disabled="disabled"', ' label="label"']), r.choice(['A', 'B', ''])) for _ in range(r.choice([1, 2, 3])))
+        return r.choice(['<select name="%s"%s>%s</select>' % (r.choice(['s', 'name', 'multiple']), r.choice(['', ' multiple="multiple"', ' disabled="disabled"', ' size="size"']), opts),
+                         '<input type="text" name="%s" value="%s"%s/>' % (r.choice(['n', 'name', 'NAME']), r.choice(['v', 'value', 'Value', 'readonly']), r.choice(['', ' readonly="readonly"', ' title="title"', ' checked="checked"'])),
+                         '<textarea name="name" rows="rows"%s>%s</textarea>' % (r.choice(['', ' readonly="readonly"', ' disabled="disabled"']), r.choice(['', 't', 'a b'])),
+                         '<ul compact="compact" type="type"><li>x</li></ul>', '<hr noshade="noshade" width="width"/>', '<table><tr><td nowrap="nowrap" abbr="abbr">c</td><th nowrap="nowrap" axis="AXIS">h</th></tr></table>'])
     if k < 0.4:
         n = r.choice(['script', 'style'])
         return '<%s>%s</%s>' % (n, c04.src_escape(r.choice(['if (a < b && c > d) { x = "y"; }', 'p > a { color: red }', 'var s = "é";', ''])), n)
@@ -320,12 +327,21 @@ def gen_html(r, depth=0):
         a += ' title="%s"' % c04.src_escape(r.choice(HTEXT), True)
     if r.random() < 0.15:
         a += ' class="c%d"' % r.randint(0, 3)
+    if r.random() < 0.12:
+        # a value that happens to be the name of the attribute (any case), and attributes that are boolean for other elements only
+        a += r.choice([' id="id"', ' id="ID"', ' lang="lang"', ' dir="DIR"', ' style="style"', ' name="Name"', ' checked="checked"', ' selected="selected"', ' disabled="disabled"', ' nowrap="nowrap"', ' compact="compact"',
+                       ' align="ALIGN"', ' data="data"'])
     kids = ''.join(gen_html(r, depth + 1) for _ in range(r.choice([0, 1, 2, 3])))
     if n == 'ul':
         kids = ''.join('<li>%s</li>' % gen_html(r, depth + 1) for _ in range(r.choice([1, 2, 3])))
     if n == 'table':
         kids = ''.join('<tr>%s</tr>' % ''.join('<td>%s</td>' % gen_html(r, depth + 2) for _ in range(r.choice([1, 2]))) for _ in range(r.choice([1, 2])))
     return '<%s%s>%s</%s>' % (n, a, kids, n)
+
+
+HTML_BOOLEAN = set([('input', 'checked'), ('input', 'disabled'), ('input', 'readonly'), ('input', 'ismap'), ('option', 'selected'), ('option', 'disabled'), ('select', 'multiple'), ('select', 'disabled'),
+                    ('textarea', 'disabled'), ('textarea', 'readonly'), ('button', 'disabled'), ('optgroup', 'disabled'), ('img', 'ismap'), ('hr', 'noshade'), ('td', 'nowrap'), ('th', 'nowrap'),
+                    ('ul', 'compact'), ('ol', 'compact'), ('dl', 'compact'), ('dir', 'compact'), ('menu', 'compact'), ('script', 'defer'), ('object', 'declare'), ('area', 'nohref'), ('frame', 'noresize')])
 
 
 class HTMLTree(html.parser.HTMLParser):
@@ -336,7 +352,9 @@ class HTMLTree(html.parser.HTMLParser):
         self.problems = []
 
     def handle_starttag(self, tag, attrs):
-        e = ('e', tag, dict((k, v if v is not None else k) for k, v in attrs), [])
+        # an attribute written without a value stands for name="name" only where HTML 4 declares it boolean for that element; anywhere
+        # else a parser reads an empty value
+        e = ('e', tag, dict((k, v if v is not None else (k if (tag.lower(), k.lower()) in HTML_BOOLEAN else '')) for k, v in attrs), [])
         self.stack[-1][3].append(e)
         if tag not in VOID:
             self.stack.append(e)
